@@ -12,9 +12,9 @@ EXTENDS Integers, Sequences, FiniteSets, TLC
 
 UpdOrigins == {"built", "decoded", "decoded-verified"}     \* NewUpdate | from JSON, Verify not called yet | from JSON and verified
 UpdEvents == {"none", "some"}
-ListStates == {"fresh", "used"}
+ListStates == {"fresh", "used", "failed"}                  \* "failed": the variable held a list whose verification failed
 Payloads == {"empty", "some"}
-WitOrigins == {"built", "decoded"}                          \* in memory | read back from JSON storage (accumulator not unmarshaled yet)
+WitOrigins == {"built", "decoded", "decoded-no-u", "decoded-no-e"}   \* in memory | read back from JSON storage (accumulator not unmarshaled yet) | stored incompletely
 Encodings == {"json", "cbor"}
 
 Scenarios ==
@@ -23,6 +23,8 @@ Scenarios ==
    \cup { [call |-> "witness-update", wit |-> w] : w \in WitOrigins }
    \cup { [call |-> "flatten", parts |-> p] : p \in {"two", "with-empty", "without-product"} }
    \cup { [call |-> "prepend-shared-list", second |-> s] : s \in {"fails", "succeeds"} }
+   \* a SignedAccumulator object that was verified receives OTHER signed bytes by decoding (a witness / update variable is reused)
+   \cup { [call |-> "redecode-accumulator", data |-> d, enc |-> c] : d \in {"newer", "garbage"}, c \in Encodings }
 
 \* outcome class the caller is owed ("ok" / "error"), and what must hold afterwards
 Expect(s) ==
@@ -30,8 +32,11 @@ Expect(s) ==
            IF s.events = "none" THEN [class |-> "error", post |-> "unchanged"]                       \* nothing to prepend to
            ELSE IF s.upd = "decoded" THEN [class |-> "error", post |-> "unchanged"]                  \* accumulator not verified yet
            ELSE [class |-> "ok", post |-> "extended"]
-     [] s.call = "decode-list" -> [class |-> "ok", post |-> IF s.payload = "empty" THEN "holds-none" ELSE "holds-payload"]
-     [] s.call = "witness-update" -> [class |-> "ok", post |-> "witness-valid-at-new-index"]
+     [] s.call = "decode-list" -> [class |-> "ok", post |-> IF s.payload = "empty" THEN "holds-none" ELSE "holds-payload"]    \* and the decoded list verifies
+     [] s.call = "witness-update" -> IF s.wit \in {"decoded-no-u", "decoded-no-e"} THEN [class |-> "error", post |-> "unchanged"]
+                                     ELSE [class |-> "ok", post |-> "witness-valid-at-new-index"]
+     [] s.call = "redecode-accumulator" -> IF s.data = "garbage" THEN [class |-> "error", post |-> "unchanged"]
+                                           ELSE [class |-> "ok", post |-> "reports-the-new-accumulator"]
      [] s.call = "flatten" -> [class |-> "ok", post |-> IF s.parts = "without-product" THEN "verifies-no-product" ELSE "verifies"]
      [] s.call = "prepend-shared-list" -> [class |-> IF s.second = "fails" THEN "error" ELSE "ok", post |-> "first-update-intact"]
 
